@@ -1,6 +1,7 @@
 import NrDaemon.Lemmas.Proc
 import NrDaemon.Lemmas.Lifecycle
 import NrDaemon.Props.Tied
+import NrDaemon.Gen.Lifecycle
 /-!
   C03 — application lifecycle follows the collector's verdicts.
   The status classification (`Gen.Status.*`) is regenerated from `collector/client.go` on every run.
@@ -293,3 +294,79 @@ theorem C03_restart_during_harvest (s : PState) (req : Req) (run : RunM) (app : 
         subst hrm
         exact ⟨rfl, rfl⟩
       · simp at hrm
+
+/-! ## The two functions the lifecycle model transcribes, as they are in processor.go today (`Gen.Lifecycle`) -/
+
+/-- `processHarvestError`: unknown run → nothing; save the data iff the status says so; 410 (or an application already
+disconnected) → disconnected, run shut down; 401/409 (or an application in restart) → unknown, run shut down, connect
+considered — the structure of `harvestVerdict` -/
+def reviewedHarvestError : List String := [
+  "if !ok {",
+  "return",
+  "}",
+  "h.Harvest.IncrementHttpErrors(…)",
+  "if d.Reply.ShouldSaveHarvestData() {",
+  "d.data.FailedHarvest(…)",
+  "}",
+  "switch {",
+  "case d.Reply.IsDisconnect()||app.state==AppStateDisconnected:",
+  "app.state = AppStateDisconnected",
+  "p.shutdownAppHarvest(…)",
+  "case d.Reply.IsRestartException()||app.state==AppStateRestart:",
+  "app.state = AppStateUnknown",
+  "p.shutdownAppHarvest(…)",
+  "p.considerConnect(…)",
+  "}"
+]
+
+/-- `processConnectAttempt`: unknown application or superseded attempt → nothing; 410 → disconnected; 401 → invalid
+license; 409 → unknown; any other error → unknown; otherwise connected, the log limit negotiated BEFORE the run and its first
+harvest are created — the structure of `connectFailed` / `connectOk` -/
+def reviewedConnectAttempt : List String := [
+  "if nil==app {",
+  "return",
+  "}",
+  "if AppStateUnknown!=app.state {",
+  "return",
+  "}",
+  "app.RawConnectReply = rep.RawReply.Body",
+  "if rep.RawReply.IsDisconnect() {",
+  "app.state = AppStateDisconnected",
+  "return",
+  "}",
+  "else if rep.RawReply.IsRestartException() {",
+  "if rep.RawReply.IsInvalidLicense() {",
+  "app.state = AppStateInvalidLicense",
+  "}",
+  "else {",
+  "app.state = AppStateUnknown",
+  "}",
+  "return",
+  "}",
+  "else if nil!=rep.Err {",
+  "app.state = AppStateUnknown",
+  "return",
+  "}",
+  "app.connectReply = rep.Reply",
+  "app.state = AppStateConnected",
+  "app.collector = rep.Collector",
+  "app.RawSecurityPolicies = rep.RawSecurityPolicies",
+  "app.connectTime = time.Now(…)",
+  "app.harvestFrequency = time.Duration(app.connectReply.SamplingFrequency)*time.Second",
+  "app.samplingTarget = uint16(…)",
+  "processLogEventLimits(…)",
+  "if 0==app.samplingTarget {",
+  "app.samplingTarget = 10",
+  "}",
+  "if 0==app.harvestFrequency {",
+  "app.harvestFrequency = 60*time.Second",
+  "}",
+  "app.HarvestTrigger = getHarvestTrigger(…)",
+  "p.harvests[*app.connectReply.ID] = NewAppHarvest(…)"
+]
+
+/-- **C03 (tie: the lifecycle decisions are the code's).**  The decision skeletons regenerated from processor.go on this run
+are the ones the model was transcribed from. -/
+theorem C03_lifecycle_source_tied :
+    Gen.Lifecycle.processHarvestError = reviewedHarvestError ∧ Gen.Lifecycle.processConnectAttempt = reviewedConnectAttempt :=
+  ⟨rfl, rfl⟩
